@@ -8,6 +8,10 @@
      BadSig       any block whose signature does not verify under the publisher key
                   (signed by another key, corrupted signature, header field changed)
      BadBody      the genuine signed header with a body that does not hash to BodyHash
+                  (the body of another block: its transactions are not valid here)
+     AltBody      the genuine signed header with a DIFFERENT body whose transactions are
+                  all valid against the unspent set at that height (the signature covers
+                  the header only: the body-hash comparison is what rejects it)
      PrevVariant  the genuine block with another PrevHash in the header, signed by the
                   publisher key over that header (defect F1: ExecuteBlock overwrites
                   PrevHash before checking it; whether the tree accepts it is the
@@ -15,7 +19,7 @@
 From Sky Require Import Base.Uint.
 Open Scope Z_scope.
 
-Inductive bkind := Genuine | BadSig | BadBody | PrevVariant.
+Inductive bkind := Genuine | BadSig | BadBody | PrevVariant | AltBody.
 Record dblock := mkd { d_seq : Z; d_kind : bkind }.
 
 Definition sig_ok (b : dblock) : bool :=
@@ -135,7 +139,7 @@ Fixpoint sync_loop (f1 : bool) (reqn n cap : Z) (fuel : nat) (held : list dblock
 (* boolean helpers for the cases files *)
 Definition eqb_kind (a b : bkind) : bool :=
   match a, b with
-  | Genuine, Genuine | BadSig, BadSig | BadBody, BadBody | PrevVariant, PrevVariant => true
+  | Genuine, Genuine | BadSig, BadSig | BadBody, BadBody | PrevVariant, PrevVariant | AltBody, AltBody => true
   | _, _ => false
   end.
 Definition eqb_reply (a b : reply) : bool :=
